@@ -194,3 +194,55 @@ def normals(kind, n):
     for nm, v in (("dir=x", (1, 0)), ("dir=y", (0, 1))):
         out.append((nm, A.Sym2D([A.full(n, v[0]), A.full(n, v[1])]), v))
     return out
+
+
+# --------------------------------------------------------------------------------------
+# abstract 1-D mesh: the contract of the mesh constructors (proved in C20) as hypothesis
+
+def monotone_array(name, n):
+    """input array with the invariant 'strictly increasing', instantiated pairwise at the
+    index terms at which the array is read (DESIGN §2.3)"""
+    arr = A.input_array(name, n)
+    uf = arr.uf
+    seen = []
+
+    def inv(i):
+        ti = T.tz(i)
+        for tj in seen:
+            if tj.eq(ti):
+                break
+        else:
+            s = T.cur()
+            for tj in seen:
+                inr = z3.And(tj >= 0, tj < T.tz(n))
+                s.add_fact(z3.Implies(z3.And(inr, ti >= 0, ti < T.tz(n)),
+                                      z3.And(z3.Implies(ti < tj, uf(ti) < uf(tj)),
+                                             z3.Implies(tj < ti, uf(tj) < uf(ti)),
+                                             z3.Implies(ti == tj, uf(ti) == uf(tj)))))
+            seen.append(ti)
+        return True
+    arr.inv = inv
+    return arr
+
+
+def abstract_mesh1d(chk, n, name="xf", cls="mesh1d"):
+    """instance of the real mesh class whose constructor is replaced by its contract (C20):
+    ncell+1 strictly increasing faces, centres at the face midpoints, length = xf[n]-xf[0]"""
+    from pyvc.interp import PyObj
+    xf = monotone_array(name, T.add(n, 1))
+    xfat = xf.at
+    xc = A.SymArray(n, lambda i: T.div(T.add(xfat(i), xfat(T.add(i, 1))), 2), name="xc")
+    o = PyObj(get(chk, "flowdyn.mesh", cls))
+    with T.no_safety():
+        length = T.sub(xf.at(n), xf.at(0))
+    o.attrs.update({"ncell": n, "xf": xf, "xc": xc, "length": length, "_type": "1D"})
+    return o
+
+
+def make_field(chk, model, mesh, data, t=None):
+    """a real field.fdata object through its constructor"""
+    it = chk.interp
+    kw = {}
+    if t is not None:
+        kw["t"] = t
+    return it.call(get(chk, "flowdyn.field", "fdata"), [model, mesh, data], kw)
